@@ -536,6 +536,9 @@ def run_files(job):
     sel = [q for r in (1, 2, 3) for q in permutations(range(len(hands)), r)]
     if job.get('tier') != 'thorough':
         sel = [q for q in sel if len(q) < 3 or q[0] < q[1] < q[2]]
+    # long files: all hands in both orders, and twice over (22 hands)
+    allq = tuple(range(len(hands)))
+    sel += [allq, allq[::-1], allq + allq[::-1]]
     for q in sel:
         c['file_cases'] += 1
         hs = [hands[i][1] for i in q]
